@@ -95,6 +95,11 @@ def cases(ctx):
             for direction in ("e2c", "c2e"):
                 if mine():
                     yield {"kind": "mov", "c": c, "dir": direction, "debug": debug}
+            # electron -> carbon with operand registers the transpiler cannot resolve from this subroutine's text: Q registers
+            # set by an earlier subroutine of the application, and R registers (what the SDK's NV multi-pair keep loop uses)
+            for how in ("carried", "rregs"):
+                if mine():
+                    yield {"kind": "mov", "c": c, "dir": "e2c", "debug": debug, "operands": how}
     for g in ("cnot", "cphase"):
         for (a, b) in ((1, 2), (2, 3), (3, 1)):
             for (c, d) in ((2, 1), (1, 3), (3, 2)):
@@ -190,7 +195,16 @@ def _run(ctx, case):
     elif kind == "mov":
         c = case["c"]
         src, tgt = (0, c) if case["dir"] == "e2c" else (c, 0)
-        sub = transpiled([["set", [["Q", 0], src]], ["set", [["Q", 1], tgt]], ["mov", [["Q", 0], ["Q", 1]]]], case["debug"])
+        how = case.get("operands")
+        if how == "carried":
+            hc_seed = codec.mk_subroutine("vanilla", [0, 10], 0, [["set", [["Q", 0], src]], ["set", [["Q", 1], tgt]]])
+            from vf.harness import controller as hc
+            hc.drive(b.ex.execute_subroutine(hc_seed), b.ex, None)
+            sub = transpiled([["mov", [["Q", 0], ["Q", 1]]]], case["debug"])
+        elif how == "rregs":
+            sub = transpiled([["set", [["R", 1], src]], ["set", [["R", 2], tgt]], ["mov", [["R", 1], ["R", 2]]]], case["debug"])
+        else:
+            sub = transpiled([["set", [["Q", 0], src]], ["set", [["Q", 1], tgt]], ["mov", [["Q", 0], ["Q", 1]]]], case["debug"])
         left = no_vanilla_left(sub)
         if left:
             ctx.fail(case, f"vanilla instruction survives transpilation: {left}")
